@@ -22,6 +22,7 @@ THEOREMS = [
     "CKT.C11.memberStr_at", "CKT.C11.memberStr_off", "CKT.C11.qMeasSem", "CKT.Sem.stdProj_is_channel_ptm", "CKT.Sem.marker_is_signed_projectors",
     "CKT.Sem.h_rows", "CKT.Sem.sx_rows",
 ]
+LEVEL_TEXT = ("grouping checker soundness, general observable, bitmasks, shape of the appended measurement circuit + T11.4 (Walsh identity: parity-decoded outcomes of the appended circuit = the member's expectation value) proved in the Pauli-expectation semantics with standard projectors and the h/sx rows of the channel model; Qiskit's grouping is external and validated per run by the proved checker")
 RULE = ("Pauli lists on 1-6 qubits (duplicates, all-identity, mutually anticommuting sets, up to 40 entries) through ObservableCollection, "
         "most_general_observable (and the construct_general_observables hook) on compatible and incompatible lists incl. members clashing on 1-4 qubits "
         "(even clash counts commute as a whole), measurement circuits for every group on random preparation circuits; "
